@@ -4,8 +4,10 @@ use serde::{Deserialize, Serialize};
 use vh::runner::pick_idx;
 use vh::util::BStr;
 
-pub const MODES: [&str; 6] = ["dyn-debug", "dyn-release", "static-debug", "static-release", "pie-debug", "pie-release"];
-pub const BUILD_CLASS: [&str; 6] = ["build-dyn-debug", "build-dyn-release", "build-static-debug", "build-static-release", "build-pie-debug", "build-pie-release"];
+/// the last one is optional (static PIE with REL relocations: needs a linker that knows `-z rel`)
+pub const MODES: [&str; 7] = ["dyn-debug", "dyn-release", "static-debug", "static-release", "pie-debug", "pie-release", "pierel-debug"];
+pub const NB: usize = 7;
+pub const BUILD_CLASS: [&str; 7] = ["build-dyn-debug", "build-dyn-release", "build-static-debug", "build-static-release", "build-pie-debug", "build-pie-release", "build-pierel-debug"];
 
 /// Largest string execve accepts (MAX_ARG_STRLEN = 32 pages includes the terminator).
 pub const MAX_ARG: u32 = 131_071;
@@ -176,9 +178,9 @@ fn resolve_key(spec: &KeySpec, envp: &[Vec<u8>]) -> Vec<u8> {
 
 fn builds(thorough: bool, quick_n: usize) -> BoxedStrategy<Vec<u8>> {
     if thorough {
-        Just((0u8..6).collect::<Vec<u8>>()).boxed()
+        Just((0u8..7).collect::<Vec<u8>>()).boxed()
     } else {
-        prop::sample::subsequence((0u8..6).collect::<Vec<u8>>(), quick_n).boxed()
+        prop::sample::subsequence((0u8..7).collect::<Vec<u8>>(), quick_n).boxed()
     }
 }
 
